@@ -599,6 +599,8 @@ func (s *scenario) run(walk []act) {
 			}
 		case "stoprequest":
 			s.stop(a.Inst)
+		case "pause":
+			time.Sleep(400 * time.Millisecond)
 		}
 	}
 	// wind down
@@ -736,6 +738,23 @@ func run(c *vf.Ctx) {
 		scen = append(scen, s)
 	}
 	runtime.GOMAXPROCS(prevProcs)
+	// a router whose listen port is held by somebody else: it starts, warns, runs and stops like any other
+	for k := 0; k < 2; k++ {
+		port := freePort()
+		hold, err := net.Listen("tcp", fmt.Sprintf(":%d", port))
+		if err != nil {
+			c.Broken("listen-port-taken: cannot hold port %d: %v", port, err)
+			continue
+		}
+		s := &scenario{c: c, rng: rand.New(rand.NewSource(c.Seed*1000 + 950 + int64(k))), dir: stateDir, insts: map[string]*live{}, macro: []string{"listen-port-taken"},
+			fixed: true, fixedPorts: map[string][]int{"A": {port}, "B": {freePort(), freePort()}}}
+		w := []act{{Name: "construct", Inst: "A", API: k == 1}, {Name: "startmodule", Inst: "A"}, {Name: "pause"}, {Name: "stoprequest", Inst: "A"}}
+		if p, v, stack := vf.NoPanic(func() { s.run(w) }); p {
+			s.bad = append(s.bad, badThing{"driver-or-router-panic", fmt.Sprintf("%v\n%s", v, firstLines(stack, 20))})
+		}
+		_ = hold.Close()
+		scen = append(scen, s)
+	}
 	c.Logf("R: %d scenarios executed", len(scen))
 
 	var events []any
